@@ -95,9 +95,9 @@ def inet_ntoa(address: bytes) -> str:
     return thex
 
 
-_v4_ending = re.compile(rb"(.*):(\d+\.\d+\.\d+\.\d+)$")
+_v4_ending = re.compile(rb"(.*):(\d+\.\d+\.\d+\.\d+)\Z")
 _colon_colon_start = re.compile(rb"::.*")
-_colon_colon_end = re.compile(rb".*::$")
+_colon_colon_end = re.compile(rb".*::\Z")
 
 
 def inet_aton(text: str | bytes, ignore_scope: bool = False) -> bytes:
